@@ -103,9 +103,11 @@ def run(pid, tier):
         states += tr["distinct"]
         trans += tr["states"]
         for i, ev in bad:
-            if ev.get("_reason") not in mine:
+            why = [w for w in ev.get("_reason", "components").split(",") if w in mine]
+            if not why:
                 continue
             tbad += 1
+            ev["_reason"] = why[0]
             v.add([dict(key=classify(pid, ev), reason=ev.get("_reason"), argv=ev["argv"], observed=ev["out"],
                         semver=core.cp_text(ev["semver"]["s"]), pep440=core.cp_text(ev["pep440"]["s"]),
                         semver_next_commit=core.cp_text(ev["nsemver"]["s"]), hash=ev["hash"])])
